@@ -2,6 +2,7 @@
 import KinModel.Drv.Util
 import KinModel.Schema.Events
 import KinModel.Schema.Defaults
+import KinModel.Schema.Pattern
 open Lean
 namespace KinModel.Drv
 open KinModel.Schema
@@ -81,7 +82,14 @@ def regexOf (j : Json) : String → String → Option Bool :=
   let rx := triples j "regex"
   fun p s => match rx.find? (fun t => t.1 == p && t.2.1 == s) with | some t => t.2.2 | none => none
 
-def envOf (j : Json) : Env :=
+/-- Go's regexp on Go pattern text, as a table {gorx: [[goText, string, true|false|null], …]} -/
+def goRegexOf (j : Json) : String → String → Option Bool :=
+  let rx := triples j "gorx"
+  fun g s => match rx.find? (fun t => t.1 == g && t.2.1 == s) with | some t => t.2.2 | none => none
+
+def hasGorx (j : Json) : Bool := match j.getObjVal? "gorx" with | .ok (.arr _) => true | _ => false
+
+def envOf0 (j : Json) : Env :=
   let rx := triples j "regex"
   let fm := triples j "formats"
   let ctx := getStr j "ctx"
@@ -89,6 +97,15 @@ def envOf (j : Json) : Env :=
     strFormat := fun f s => match fm.find? (fun t => t.1 == f && t.2.1 == s) with | some t => t.2.2 | none => none,
     asreq := ctx == "asreq", asrep := ctx == "asrep", roOff := getBool j "roOff", woOff := getBool j "woOff",
     patOff := getBool j "patOff", dfl := getBool j "dfl" }
+
+/-- the environment of the call as the LIBRARY sees it: with a `gorx` table the default engine is Go's regexp applied to
+`intoGo pattern` (the translation is part of the model); otherwise the table is keyed by the pattern itself -/
+def envOf (j : Json) : Env :=
+  if hasGorx j then (envOf0 j).viaGo (goRegexOf j) intoGo else envOf0 j
+
+/-- … and as the property reads the pattern (ECMA-262) -/
+def envSpecOf (j : Json) : Env :=
+  if hasGorx j then (envOf0 j).viaGo (goRegexOf j) ecmaToGo else envOf0 j
 
 end KinModel.Drv
 
